@@ -55,11 +55,24 @@ def _on_alarm(signum, frame):
 
 
 class time_limit:
+    """Wall-clock budget for one evaluation. So that a heavily loaded machine cannot turn a healthy evaluation into a
+    'timeout', the alarm only counts once the worker itself has burnt (almost) the whole budget as CPU time - a hang
+    in this pure-Python code base is a busy loop - or once six times the budget has passed on the wall clock."""
+
     def __init__(self, seconds):
         self.seconds = seconds
 
+    def _alarm(self, signum, frame):
+        cpu = time.process_time() - self.cpu0
+        wall = time.time() - self.wall0
+        if cpu >= 0.9 * self.seconds or wall >= 6 * self.seconds:
+            raise EvalTimeout()
+        signal.setitimer(signal.ITIMER_REAL, max(0.2, self.seconds - cpu))
+
     def __enter__(self):
-        signal.signal(signal.SIGALRM, _on_alarm)
+        self.cpu0 = time.process_time()
+        self.wall0 = time.time()
+        signal.signal(signal.SIGALRM, self._alarm)
         signal.setitimer(signal.ITIMER_REAL, self.seconds)
 
     def __exit__(self, *a):
